@@ -3,6 +3,22 @@
 set -e
 . /verif/scripts/env.sh
 cd /verif/harness
-mkdir -p /verif/bin
+mkdir -p /verif/bin /verif/.work/overlay
 go build -o /verif/bin/vcheck ./cmd/vcheck
 go build -tags purego -o /verif/bin/vcheck-purego ./cmd/vcheck
+# scheduler build: "sync" in the two session files is replaced by the vsync shim (overlay generated from the CURRENT repo files)
+ov=/verif/.work/overlay
+for f in iterator/session.go builder/session.go; do
+  out=$ov/$(echo $f | tr / _)
+  sed 's#^\t"sync"$#\tsync "github.com/kstenerud/go-concise-encoding/vsync"#' /repo/$f > $out.tmp
+  grep -q 'go-concise-encoding/vsync' $out.tmp || { echo "overlay: could not rewrite the sync import of $f" >&2; exit 1; }
+  cmp -s $out.tmp $out 2>/dev/null || mv $out.tmp $out
+  rm -f $out.tmp
+done
+cat > $ov/overlay.json.tmp <<JSON
+{"Replace": {"/repo/iterator/session.go": "$ov/iterator_session.go", "/repo/builder/session.go": "$ov/builder_session.go", "/repo/vsync/vsync.go": "/verif/overlay/vsync/vsync.go"}}
+JSON
+cmp -s $ov/overlay.json.tmp $ov/overlay.json 2>/dev/null || mv $ov/overlay.json.tmp $ov/overlay.json
+rm -f $ov/overlay.json.tmp
+go build -tags sched -overlay $ov/overlay.json -o /verif/bin/vcheck-sched ./cmd/vcheck
+go build -race -o /verif/bin/vcheck-race ./cmd/vcheck
